@@ -236,7 +236,7 @@ func check(c Case) vk.Verdict {
 	var req1 []byte
 	q := url.Values{}
 	for _, kv := range c.Input {
-		if q.Get(kv[0]) == "" {
+		if _, dup := q[kv[0]]; !dup {
 			q.Add(kv[0], kv[1])
 		}
 	}
@@ -403,7 +403,7 @@ func checkInProcess(c Case, wantMsgs, wantInputs []string) vk.Verdict {
 	app := newApp(c, &s)
 	q := url.Values{}
 	for _, kv := range c.Input {
-		if q.Get(kv[0]) == "" {
+		if _, dup := q[kv[0]]; !dup {
 			q.Add(kv[0], kv[1])
 		}
 	}
@@ -524,7 +524,7 @@ func genCase(t *rapid.T) Case {
 	if rapid.IntRange(0, 2).Draw(t, "input") == 0 {
 		ni := rapid.IntRange(1, 3).Draw(t, "ninput")
 		for i := 0; i < ni; i++ {
-			c.Input = append(c.Input, [2]string{rapid.StringMatching(`[a-z]{1,6}`).Draw(t, "ik"), rapid.StringMatching(`[A-Za-z0-9_.!-]{1,10}`).Draw(t, "iv")})
+			c.Input = append(c.Input, [2]string{rapid.StringMatching(`[a-z]{1,6}`).Draw(t, "ik"), rapid.StringMatching(`[A-Za-z0-9_.!-]{0,10}`).Draw(t, "iv")})
 		}
 		c.InputForm = rapid.Bool().Draw(t, "form")
 		if len(c.Msgs) > 0 && rapid.IntRange(0, 2).Draw(t, "msgkey=inputkey") == 0 {
